@@ -1,5 +1,5 @@
 #!/usr/bin/env python3
-"""tools/translator_sensitivity.py — self-audit of the four translators (rs2lean*.py).
+"""tools/translator_sensitivity.py — self-audit of the translators (rs2lean*.py).
 
 A translator that silently ignored part of a function would make the "regenerated on every run" tie hollow.  This
 script mutates, one small edit at a time, the bodies of the translated Rust functions in a SCRATCH COPY of /repo/src
@@ -39,9 +39,10 @@ TRANSLATORS = [("rs2lean.py", "RS2LEAN_OUT", "Builders.lean"), ("rs2lean_guards.
                ("rs2lean_nal.py", "RS2LEAN_NAL_OUT", "Nal.lean"), ("rs2lean_frag.py", "RS2LEAN_FRAG_OUT", "FragMethods.lean"),
                ("rs2lean_sched.py", "RS2LEAN_SCHED_OUT", "Schedule.lean"),
                ("rs2lean_tables.py", "RS2LEAN_TABLES_OUT", "Tables.lean"),
-               ("rs2lean_stats.py", "RS2LEAN_STATS_OUT", "Stats.lean")]
+               ("rs2lean_stats.py", "RS2LEAN_STATS_OUT", "Stats.lean"),
+               ("rs2lean_adts.py", "RS2LEAN_ADTS_OUT", "Adts.lean")]
 PROOFS = ["Muxide.Props.C19Generated", "Muxide.Props.C19GeneratedTables", "Muxide.Props.C04Generated", "Muxide.Props.C07Generated",
-          "Muxide.Props.C14Generated", "Muxide.Props.C10Generated", "Muxide.Props.C11Generated", "Muxide.Props.C15Generated", "Muxide.Props.C03Generated", "Muxide.Props.C06Generated"]
+          "Muxide.Props.C14Generated", "Muxide.Props.C10Generated", "Muxide.Props.C11Generated", "Muxide.Props.C15Generated", "Muxide.Props.C03Generated", "Muxide.Props.C06Generated", "Muxide.Props.C14GeneratedAdts"]
 
 
 def targets():
@@ -51,7 +52,7 @@ def targets():
     t += [("src/codec/h265.rs", n) for n in ("hevc_nal_type", "is_hevc_keyframe_nal_type", "extract_hevc_config", "is_hevc_keyframe", "hevc_annexb_to_hvcc")]
     t += [("src/fragmented.rs", n) for n in ("current_fragment_duration_ms", "ready_to_flush", "write_video", "flush_segment",
                                              "build_trun", "build_traf", "build_moof_with_offset", "build_moof", "build_media_segment")]
-    t += [("src/muxer/mp4.rs", "compute_interleave_schedule"), ("src/muxer/mp4.rs", "from_samples"), ("src/muxer/mp4.rs", "max_end_pts")]
+    t += [("src/muxer/mp4.rs", "compute_interleave_schedule"), ("src/muxer/mp4.rs", "from_samples"), ("src/muxer/mp4.rs", "max_end_pts"), ("src/muxer/mp4.rs", "adts_to_raw")]
     return t
 
 
